@@ -166,7 +166,7 @@ def subs(tier, only=None):
                        rule='case = (path, ignore_missing, sequence of 2-3 targets whose parent is a dict / list / object / None): ONE Delete object applied to '
                             'each in turn equals a fresh Delete every time', min_nontrivial=100, min_outcomes=1))
     if only in (None, 'wildcard-delete'):
-        out.append(Sub('wildcard-delete', [c for c in c14.gen_mutate(tier) if c[2] == 'delete'], c14.run_mutate,
+        out.append(Sub('wildcard-delete', [c for c in c14.gen_mutate(tier) if c[2].startswith('delete')], c14.run_mutate,
                        rule='case = (tree-shaped target, path with 1-4 wildcards, function|spec form): deletion at every match against a plain loop (shared with C14)',
                        min_nontrivial=10, min_outcomes=2))
     return out
